@@ -1852,7 +1852,7 @@ func (e *env) concurrent() {
 	rng := e.rng
 	c := &conc{e: e, slots: make([]atomic.Pointer[rdr], e.cfg.Readers)}
 	src := e.newID()
-	volume := int64(e.run.N(48<<10, 160<<10))
+	volume := int64(e.run.N(48<<10, 96<<10))
 	if rng.Intn(5) == 0 {
 		volume *= 4
 	}
@@ -2133,15 +2133,24 @@ func main() {
 		runCase(run, fmt.Sprintf("seq-%d", i), "sequential", i, 16)
 	})
 	fmt.Printf("progress: %d sequential histories done, %d violations so far\n", nSeq, run.ViolationCount())
+	// quick: a third of the concurrent histories per GOMAXPROCS value; thorough: 1/5, 2/5, 2/5
+	// (two procs make slow histories)
+	procsOf := func(i int) int {
+		if run.Quick() {
+			return []int{2, 4, 16}[i%3]
+		}
+		return []int{2, 4, 4, 16, 16}[i%5]
+	}
 	for _, procs := range []int{2, 4, 16} {
 		runtime.GOMAXPROCS(procs)
 		var idx []int
 		for i := 0; i < nConc; i++ {
-			if []int{2, 4, 16}[i%3] == procs {
+			if procsOf(i) == procs {
 				idx = append(idx, i)
 			}
 		}
-		harness.Parallel(len(idx), 4, func(k int) {
+		par := map[int]int{2: 4, 4: 4, 16: run.N(4, 8)}[procs]
+		harness.Parallel(len(idx), par, func(k int) {
 			i := idx[k]
 			runCase(run, fmt.Sprintf("conc-%d", i), "concurrent", i, procs)
 		})
